@@ -125,6 +125,7 @@ class Analysis:
         self.ret = None
         self.established = {}
         self.pending = {}
+        self.modelled_closures = set()
         from analyses import label_results
         self.ok_edges = {}
         for cb, info in label_results(fn).items():
@@ -217,7 +218,7 @@ class Analysis:
         if k in ('use', 'cast'):
             p0 = op_place(rv['a'])
             if p0 is not None:
-                for tag in ('len', 'some', 'issome', 'lenof', 'lensym'):
+                for tag in ('len', 'some', 'issome', 'lenof', 'lensym', 'range'):
                     if (tag, place_key(p0)) in st:
                         aux[tag] = st[(tag, place_key(p0))]
         if k == 'ref':
@@ -313,6 +314,10 @@ class Analysis:
                 val = rng
         elif k == 'repeat' or k == 'agg' or k == 'ref' or k == 'rawptr':
             val = None
+            if k == 'agg' and rv.get('ak') == 'adt' and rv['adt'].endswith('ops::range::Range') and len(rv['ops']) == 2:
+                a0, b0 = self.read_operand(st, rv['ops'][0]), self.read_operand(st, rv['ops'][1])
+                if a0 is not None and b0 is not None:
+                    aux['range'] = (a0[0], b0[1])
             if k == 'ref':
                 # remember what the reference points to (for len / deref reads)
                 self.refs[lk] = place_key(rv['p'])
@@ -323,7 +328,7 @@ class Analysis:
         # kill sub-places and auxiliary facts about the overwritten place
         for k2 in [k2 for k2 in st if k2[0] == lk[0] and k2 != lk and k2[1][:len(lk[1])] == lk[1]]:
             st.pop(k2)
-        for tag in ('len', 'some', 'issome', 'lenof', 'lensym'):
+        for tag in ('len', 'some', 'issome', 'lenof', 'lensym', 'range'):
             st.pop((tag, lk), None)
         for tag, v3 in aux.items():
             st[(tag, lk)] = v3
@@ -501,6 +506,22 @@ class Analysis:
                         ln = st[('len', cand)]
             if ln is not None and ln[1] >= 1:
                 self._set_aux = ('some', (0, ln[1] - 1))
+        elif callee.endswith('IntoIterator::into_iter') and len(args) == 1 and op_place(args[0]) is not None and \
+                (('range', place_key(op_place(args[0]))) in st or ('len', place_key(op_place(args[0]))) in st):
+            # only for core ranges / arrays whose extent is known; every other iterator takes the generic path below
+            val = None
+            p0 = op_place(args[0])
+            if ('range', place_key(p0)) in st:
+                self._set_aux = ('range', st[('range', place_key(p0))])
+            else:
+                self._set_aux = ('len', st[('len', place_key(p0))])
+        elif callee.endswith('Iterator::next') and len(args) == 1 and op_place(args[0]) is not None and \
+                st.get(('range', self.root_of_ref(place_key(op_place(args[0]))))) is not None:
+            val = None
+            r0 = st.get(('range', self.root_of_ref(place_key(op_place(args[0])))))
+            if r0[1] - 1 >= r0[0]:
+                # `for i in a..b`: every value handed out lies in [a, b-1] (the iterator only moves forward)
+                self._set_aux = ('some', (r0[0], r0[1] - 1))
         elif callee == 'char::to_digit' and len(args) == 2:
             val = None
             r = av[1]
@@ -520,6 +541,7 @@ class Analysis:
             cret = None
             if payload is not None and cty is not None and cty['k'] == 'closure' and cty['def'] in self.facts.fns:
                 cf = self.facts.fns[cty['def']]
+                self.modelled_closures.add(cty['def'])
                 sub = Analysis(self.facts, cf, FnCtx({2: payload}, self.ctx.fields, self.ctx.used), self.summaries,
                                self.depth + 1, collector=self.collector)
                 cret = sub.ret
@@ -787,7 +809,7 @@ class Analysis:
         return self.summaries[key]
 
     # ---- refinement
-    def refine(self, st, rel, cond_pk, truth):
+    def refine(self, st, rel, cond_pk, truth, blk=None):
         r = rel.get(cond_pk)
         if r is None:
             return st
@@ -820,6 +842,10 @@ class Analysis:
                     st[place_key(p)] = nv
                     # propagate to the place a temp was copied from
                     src = self.copy_src.get(place_key(p))
+                    if src is None and blk is not None:
+                        cl = self.copy_local.get(place_key(p))
+                        if cl is not None and cl[1] == blk:
+                            src = cl[0]  # copied in this very block and not reassigned since
                     if src is not None:
                         old = st.get(src, self.read_place_key(st, src))
                         m = meet(old, nv) if old is not None else nv
@@ -915,9 +941,16 @@ class Analysis:
             self.copy_src[k2] = None
         # the source of a copy must not be reassigned between copy and test: only trust sources assigned at most once
         # or parameters / field paths (checked conservatively: sources that are plain multi-assigned locals are dropped)
+        self.copy_local = {}  # temp -> (src, blk, idx) for sources that are assigned more than once (loop variables)
         for k2, src in list(self.copy_src.items()):
             if src is not None and not src[1] and counts.get(src, 0) > 1:
                 self.copy_src[k2] = None
+                for bi in fn.reachable():
+                    for si, s2 in enumerate(fn.blocks[bi]['stmts']):
+                        if s2['k'] == 'assign' and place_key(s2['lhs']) == k2 and s2['rv']['k'] == 'use':
+                            later = fn.blocks[bi]['stmts'][si + 1:]
+                            if not any(x['k'] == 'assign' and place_key(x['lhs'])[0] == src[0] for x in later):
+                                self.copy_local[k2] = (src, bi)
         init = {}
         for i, iv in self.ctx.params.items():
             if iv is not None:
@@ -950,7 +983,7 @@ class Analysis:
                 p = op_place(t['cond'])
                 ns = st
                 if p is not None:
-                    ns = self.refine(st, rel, place_key(p), t['expected'])
+                    ns = self.refine(st, rel, place_key(p), t['expected'], b)
                     if ns is None:
                         ns = None
                 if ns is not None:
@@ -975,7 +1008,7 @@ class Analysis:
                         if src is not None:
                             ns[src] = (v, v)
                         if pk in rel and self.is_bool(pk):
-                            ns2 = self.refine(ns, rel, pk, bool(v))
+                            ns2 = self.refine(ns, rel, pk, bool(v), b)
                             if ns2 is None:
                                 continue
                             ns = ns2
@@ -995,13 +1028,13 @@ class Analysis:
                             ns[src] = ns[pk]
                 if feasible:
                     if pk is not None and pk in rel and self.is_bool(pk) and explicit == [0]:
-                        ns2 = self.refine(ns, rel, pk, True)
+                        ns2 = self.refine(ns, rel, pk, True, b)
                         if ns2 is None:
                             feasible = False
                         else:
                             ns = ns2
                     elif pk is not None and pk in rel and self.is_bool(pk) and explicit == [1]:
-                        ns2 = self.refine(ns, rel, pk, False)
+                        ns2 = self.refine(ns, rel, pk, False, b)
                         if ns2 is None:
                             feasible = False
                         else:
@@ -1072,6 +1105,19 @@ class Analysis:
         self.ret = r
         self.converged = not work
         self.established = self.compute_established()
+        if self.collector is not None and self.depth < 10:
+            for bi in fn.reachable():
+                for s2 in fn.blocks[bi]['stmts']:
+                    if s2['k'] == 'assign' and s2['rv']['k'] == 'agg' and s2['rv'].get('ak') == 'closure':
+                        cd = s2['rv']['def']
+                        if cd in self.modelled_closures:
+                            continue  # invoked through a modelled combinator with a known argument range
+                        cf = self.facts.fns.get(cd)
+                        key = ('closure', cd, tuple(sorted(self.ctx.fields.items())))
+                        if cf is not None and key not in self.summaries:
+                            self.summaries[key] = (None, None)
+                            Analysis(self.facts, cf, FnCtx({}, self.ctx.fields, self.ctx.used), self.summaries,
+                                     self.depth + 1, collector=self.collector)
 
     def compute_established(self):
         """field ranges of `*self` that hold at every Ok exit (refined by the function's own rejecting branches),
@@ -1130,8 +1176,8 @@ class Analysis:
     def type_range_of_key(self, key):
         if key and key[0] in ('lt', 'le', 'sum', 'inv', 'issome', 'lensym', 'lenof'):
             return None
-        if key and key[0] in ('len', 'some'):
-            return (0, (1 << 63) - 1)
+        if key and key[0] in ('len', 'some', 'range'):
+            return None
         if not isinstance(key[0], int):
             return (0, (1 << 63) - 1)
         try:
@@ -1194,6 +1240,8 @@ class Analysis:
                 return 'ok', '%s %s %s = %s within %s' % (fmt(a), msg['op'], fmt(bb), fmt(r), fmt(aty))
             if msg['op'] == 'Sub' and aty is not None and aty[0] == 0 and self.known_lt(st, msg['ops'][1], msg['ops'][0]):
                 return 'ok', 'subtrahend is known to be strictly below the minuend (x %% y < y or a preceding comparison)'
+            if msg['op'] == 'Sub' and aty is not None and aty[0] == 0 and self.known_le(st, msg['ops'][1], msg['ops'][0]):
+                return 'ok', 'subtrahend is known not to exceed the minuend (min() or a preceding comparison)'
             return 'fail', '%s %s %s = %s may leave %s' % (fmt(a), msg['op'], fmt(bb), fmt(r), fmt(aty))
         if kind == 'bounds':
             ln, ix = ops
@@ -1322,9 +1370,18 @@ def relation_anchor_holds(facts, r):
         if t['k'] != 'switch':
             continue
         src = switch_source(fn, bi)
-        if not src or src['kind'] != 'binop' or src['op'] not in a.get('ops', [src['op']]):
+        if not src:
             continue
-        toks = deps.of_operand(src['a']) | deps.of_operand(src['b'])
+        if src['kind'] == 'binop' and src['op'] in a.get('ops', [src['op']]):
+            toks = deps.of_operand(src['a']) | deps.of_operand(src['b'])
+        elif src['kind'] == 'call' and (src.get('callee') or '').endswith(('PartialEq::eq', 'PartialEq::ne')) and \
+                ({'Eq', 'Ne'} & set(a.get('ops', ['Eq']))):
+            toks = set()
+            for x in src['term']['args']:
+                toks |= deps.of_operand(x)
+            src = dict(src, a=src['term']['args'][0])
+        else:
+            continue
         need = a.get('depends_on', [])
         ok = True
         for n in need:
@@ -1346,6 +1403,8 @@ def relation_anchor_holds(facts, r):
             ty = place_prefix_type(fn, p, len(p['p'])) if p is not None else None
             if not ty or ty.get('bits', 0) < a['min_bits']:
                 continue
+        if a.get('guard_only'):
+            return True
         # one arm must lead to an error exit
         if any(s in eb or any(x in eb for x in fn.reach_from([s]) if x in eb) for s in fn.succ(bi)):
             return True
